@@ -29,6 +29,11 @@ func sealChunk(key []byte, ctr uint64, last bool, pt []byte) []byte {
 
 func runC02(cx *ctx) {
 	r := cx.rng
+	// the chunk counter beyond its lowest byte: 257 chunks (16 MiB), byte-exact against the Lean reference
+	{
+		rb := r.Fork()
+		cx.ru.Do(func() *h.Case { return bigCounterCase(rb, 257) })
+	}
 	// exhaustive bit flips and truncations of small payloads
 	for _, n := range []int{0, 1, 17, 64, 150}[:cx.n(3, 5)] {
 		rr := r.Fork()
